@@ -1907,11 +1907,13 @@ class PyCdlib:
                 csum = self._calculate_eltorito_boot_info_table_csum(data_fp,
                                                                      data_len)
 
-                # The table also records the length of the file.  If that is
-                # not the length of this file, or the padding is not zero,
-                # these bytes are file contents that merely look like a table
-                # (and writing a table over them would change the file).
-                if csum == bi_table.csum and bi_table.orig_len == data_len and padding == b'\x00' * 40:
+                # If the padding is not zero, these bytes are file contents
+                # that merely look like a table (and writing a table over
+                # them would change the file).  The length the table records
+                # cannot be used to tell: for a boot file that has no
+                # directory record the length known here is the load size,
+                # not the length of the file.
+                if csum == bi_table.csum and padding == b'\x00' * 40:
                     ino.add_boot_info_table(bi_table)
 
         self._cdfp.seek(orig)
